@@ -18,7 +18,7 @@ class C01(FullCheck):
           'before the deadline, result unchanged afterwards, and a value/declared exception is the '
           'server\'s reply to that very call (shared with C02). non-trivial = the call reached a server or '
           'timed out; distinct by (stack, #endpoints, balancer, open mode, outcome multiset, race classes)')
-  REQUIRED_CLASSES = ('thrift', 'mux', 'issued-before-open', 'reply-before-timer', 'timer-before-reply',
+  REQUIRED_CLASSES = ('thrift', 'mux', 'down-member-with-call-in-flight-leaves', 'issued-before-open', 'reply-before-timer', 'timer-before-reply',
                       'reply:near-deadline', 'reply:late', 'reply:never', 'server-down', 'leave', 'boundary',
                       'io-fault:recv', 'io-fault:send', 'cpu-hog', 'reply:undecodable', 'unserialisable-argument',
                       'reply-cut-short-then-eof', 'yielding-log-handler')
